@@ -2,8 +2,10 @@
    Statements only; proofs are `exact <lemma>` from Proofs/CrossCheckP.v.
    [xcheck] is the model of CrossCheckingAccurate.disparity_checking of the tree under test
    (with the two `fix:` commits in); [xcheck_before] the model of the code as found. *)
-From Coq Require Import List Bool ZArith QArith Qabs.
+From Coq Require Import List Bool ZArith QArith Qabs Lia.
 From Pandora Require Import Model.CrossCheck Spec.CrossCheck Proofs.CrossCheckP Gen.ValConst.
+From Pandora Require Import Lib.NpVec Lib.NpRow Model.XCheckGen Proofs.XCheckGenP.
+From Pandora Require Gen.XCheckKernel.
 Import ListNotations.
 Open Scope Z_scope.
 
@@ -119,6 +121,80 @@ Theorem C07_validation_run : forall thr L R,
   ds_disp (snd (validation_run thr L R)) = ds_disp R.
 Proof. exact validation_run_right. Qed.
 
+(* ---------------------------------------------------------------- T-gen: the method regenerated from the source
+   Gen/XCheckKernel.v is written at every run by translator/gen_xcheck_kernel.py from the text of
+   CrossCheckingAccurate.disparity_checking (pandora/validation/validation.py) and of the two disparity-range helpers
+   of pandora/disparity/disparity.py, statement by statement, over the numpy semantics of Lib/NpVec.v + Lib/NpRow.v
+   (floats with NaN / inf, uint16 stores reduced modulo 65536, fancy indexing, np.where, np.tile, 2-D gather /
+   scatter; every operation numpy can refuse is partial).  XCheckKernel.g_row is the body of the row loop,
+   XCheckKernel.g_disparity_checking the whole method (prelude, loop, epilogue) over the list-based dataset of
+   Model/XCheckGen.v.  The obligations below are re-proved against the regenerated text at every run. *)
+
+(* the generated row body = the model's row functions, for EVERY row: any width, disparities / NaN, uint16 masks,
+   threshold, interval; in particular no partial operation fails (Some) and no uint16 store wraps (the model
+   computes in Z) *)
+Theorem C07_gen_row_eq_model : forall thr dmin dmax (mk : list Z) (dL dR : list (option Q)),
+  length dL = length mk -> length dR = length mk -> Forall (fun m => 0 <= m < 65536) mk ->
+  XCheckKernel.g_row (XFin thr) (vlen mk) (np_arange2 dmin (dmax + 1)) mk (map x_of_oq dL) (map x_of_oq dR)
+                     (repeat XNaN (length mk))
+  = Some (tab (vlen mk) (mask_row true true (vlen mk) (fn_of None dL) (fn_of None dR) (fn_of 0 mk) thr dmin dmax),
+          tab (vlen mk) (fun c => x_of_conf (conf_row true (vlen mk) (fn_of None dL) (fn_of None dR) (fn_of 0 mk) c))).
+Proof. exact gen_row_eq_model. Qed.
+
+(* the whole generated method (shape, disparity range, band allocation, row loop, attrs, band append, mask_border)
+   = the model's xcheck, on every well-shaped call ([gen_pre]: non-empty checked dataset, reference dataset of the
+   same shape, uint16 masks); the two callees of the epilogue are the hand-written band append / mask_border *)
+Theorem C07_gen_xcheck_eq_model : forall thr me other, gen_pre me other ->
+  XCheckKernel.g_disparity_checking x_append_band (x_mask_border (ds_nr me) (ds_nc me)) (XFin thr) (to_x me) (to_x other)
+  = Some (to_x (xcheck thr me other)).
+Proof. exact gen_call_eq. Qed.
+
+(* C07_xcheck_eq_spec on the generated method, with the guard of the recorded finding *)
+Theorem C07_gen_xcheck_eq_spec : forall thr me other, gen_pre me other -> forall r c,
+  in_ds me r c -> ds_nc me <= 2 ^ 63 -> border_at me r c = false ->
+  spec_valid (ds_mask me r c) = true -> finding_at me other r c = false ->
+  exists out,
+    XCheckKernel.g_disparity_checking x_append_band (x_mask_border (ds_nr me) (ds_nc me)) (XFin thr) (to_x me) (to_x other)
+    = Some out /\
+    cell2 (x_mask out) r c = Z.lor (ds_mask me r c) (verdict_bit (verdict_at thr me other r c)).
+Proof. exact gen_xcheck_eq_spec. Qed.
+
+(* C07_xcheck_keep_iff on the generated method (no guard) *)
+Theorem C07_gen_xcheck_keep_iff : forall thr me other, gen_pre me other -> forall r c,
+  in_ds me r c -> ds_nc me <= 2 ^ 63 -> border_at me r c = false -> spec_valid (ds_mask me r c) = true ->
+  exists out,
+    XCheckKernel.g_disparity_checking x_append_band (x_mask_border (ds_nr me) (ds_nc me)) (XFin thr) (to_x me) (to_x other)
+    = Some out /\
+    (cell2 (x_mask out) r c = ds_mask me r c <-> verdict_at thr me other r c = Keep).
+Proof. exact gen_xcheck_keep_iff. Qed.
+
+(* C07_xcheck_invalid_untouched on the generated method *)
+Theorem C07_gen_invalid_untouched : forall thr me other, gen_pre me other -> forall r c,
+  in_ds me r c -> border_at me r c = false -> spec_valid (ds_mask me r c) = false ->
+  exists out,
+    XCheckKernel.g_disparity_checking x_append_band (x_mask_border (ds_nr me) (ds_nc me)) (XFin thr) (to_x me) (to_x other)
+    = Some out /\ cell2 (x_mask out) r c = ds_mask me r c.
+Proof. exact gen_invalid_untouched. Qed.
+
+(* C07_no_wrap on the generated method: its uint16 arithmetic (every += / -= / astype(np.uint16) reduces modulo
+   65536 in the semantics) returns, cell by cell, the number the model computes in Z, and that number is a uint16 *)
+Theorem C07_gen_no_wrap : forall thr me other, gen_pre me other -> ds_nc me <= 2 ^ 63 ->
+  exists out,
+    XCheckKernel.g_disparity_checking x_append_band (x_mask_border (ds_nr me) (ds_nc me)) (XFin thr) (to_x me) (to_x other)
+    = Some out /\
+    forall r c, in_ds me r c ->
+      cell2 (x_mask out) r c = ds_mask (xcheck thr me other) r c /\ 0 <= cell2 (x_mask out) r c < 65536.
+Proof. exact gen_no_wrap. Qed.
+
+(* C07_xcheck_disp_unchanged on the generated method, for ANY two datasets (well-shaped or not) and any mask_border
+   callee: what is returned has the disparity map, interval and offset of dataset_left and one more band;
+   dataset_right is only an argument (the translator refuses every store into it) *)
+Theorem C07_gen_disparity_unchanged : forall h_mask_border thr dl dr out,
+  XCheckKernel.g_disparity_checking x_append_band h_mask_border thr dl dr = Some out ->
+  x_disp out = x_disp dl /\ x_interval out = x_interval dl /\ x_offset out = x_offset dl /\
+  exists band, x_bands out = x_bands dl ++ [band].
+Proof. exact gen_disparity_unchanged. Qed.
+
 (* ---------------------------------------------------------------- witnesses *)
 
 Definition row_fn {A} (d : A) (l : list A) : Z -> Z -> A :=
@@ -182,6 +258,26 @@ Example C07_example_hyps :
   map (ds_mask (xcheck 1 e_L e_R) 0) [0; 1; 2; 3; 4; 5] = [0; 4; 0; 512; 2; 256].
 Proof. vm_compute. repeat split. Qed.
 
+(* T-gen sanity / non-vacuity: [gen_pre] holds of the example pair; the generated method runs on it (vm_compute of
+   the regenerated text) and returns the masks of C07_example_hyps and the band |dL + dR|; on the witness of the
+   recorded finding it returns occlusion (256) where the property says mismatch *)
+Example C07_example_gen :
+  gen_pre e_L e_R /\
+  option_map x_mask (gen_call 1 e_L e_R) = Some [[0; 4; 0; 512; 2; 256]] /\
+  option_map x_bands (gen_call 1 e_L e_R) = Some [[[XFin 0; XFin 1; XFin 1; XFin 2; XNaN; XFin 3]]] /\
+  option_map x_mask (gen_call 0 f_L f_R) = Some [[256; 512; 512; 256]] /\
+  verdict_at 0 f_L f_R 0 0 = Mismatch.
+Proof.
+  split.
+  - unfold gen_pre. split; [vm_compute; reflexivity|]. split; [vm_compute; congruence|].
+    split; [reflexivity|]. split; [reflexivity|].
+    intros r c Hr Hc. change (ds_nr e_L) with 1 in Hr. change (ds_nc e_L) with 6 in Hc.
+    assert (r = 0) by lia. subst r.
+    assert (Hcs : c = 0 \/ c = 1 \/ c = 2 \/ c = 3 \/ c = 4 \/ c = 5) by lia.
+    destruct Hcs as [->|[->|[->|[->|[->| ->]]]]]; vm_compute; split; congruence.
+  - vm_compute. repeat split.
+Qed.
+
 Print Assumptions C07_constants_match.
 Print Assumptions C07_rint_round_half_even.
 Print Assumptions C07_valid_test.
@@ -197,3 +293,10 @@ Print Assumptions C07_no_wrap.
 Print Assumptions C07_xcheck_right_uses_only_left_disp.
 Print Assumptions C07_validation_run.
 Print Assumptions C07_xcheck_eq_spec_unguarded_refuted.
+Print Assumptions C07_gen_row_eq_model.
+Print Assumptions C07_gen_xcheck_eq_model.
+Print Assumptions C07_gen_xcheck_eq_spec.
+Print Assumptions C07_gen_xcheck_keep_iff.
+Print Assumptions C07_gen_invalid_untouched.
+Print Assumptions C07_gen_no_wrap.
+Print Assumptions C07_gen_disparity_unchanged.
